@@ -18,6 +18,8 @@ TOKENS = {
     'b1': b'\x01\x02',
     'b2': b'\xff',
     'db1': {'k': b'\x01\x02'},
+    # byte strings two levels down (inside a dict inside a dict / a list)
+    'ddb1': {'meta': {'blob': b'\x01\x02'}, 'items': [b'\xff']},
     'None': None,
     # falsy-but-meaningful values and a string full of header metacharacters
     'es': '',
@@ -26,7 +28,7 @@ TOKENS = {
     'h1': '3f2c-11aa,/b?c"d\\e-9',
 }
 
-BINARY_TOKENS = {'b1', 'b2', 'db1'}
+BINARY_TOKENS = {'b1', 'b2', 'db1', 'ddb1'}
 
 
 def strict_eq(a, b):
